@@ -1,5 +1,6 @@
 import Gofasta.Model.Encoding
 import Gofasta.Model.Util
+import Gofasta.Model.Sort
 /-
 Model of pkg/snps: getSNPs (per-row scan on encoded bytes), writeOutput, aggregateWriteOutput.
 -/
@@ -44,14 +45,6 @@ def countAll (rows : List (List Snp)) : List (Snp × Nat) :=
 /-- the sort key of aggregateWriteOutput: (position, query allele) -/
 def snpLt (a b : Snp × Nat) : Bool :=
   a.1.1 < b.1.1 || (a.1.1 == b.1.1 && a.1.2.2 < b.1.2.2)
-
-def insSorted {α : Type} (lt : α → α → Bool) (x : α) : List α → List α
-  | [] => [x]
-  | y :: t => if lt x y then x :: y :: t else y :: insSorted lt x t
-
-/-- stable insertion sort (sort.SliceStable with a strict weak order) -/
-def sortStable {α : Type} (lt : α → α → Bool) (l : List α) : List α :=
-  l.foldl (fun acc x => insSorted lt x acc) []
 
 /-- threshold given as a decimal num/den (den a power of ten): keep iff count/total ≥ num/den -/
 def keepFreq (cnt total thrNum thrDen : Nat) : Bool := cnt * thrDen ≥ thrNum * total
